@@ -87,9 +87,11 @@ Proof.
   apply Forall_app. split; [apply Hm|]. apply Forall_app. split.
   - apply Forall_forall. intros l Hl. apply in_concat in Hl. destruct Hl as (g & Hg & Hl).
     destruct (sequence_map_in _ _ _ _ _ _ Eg Hg) as (og & _ & Eog).
-    unfold w_other_group in Eog.
-    destruct (sequence_map_in _ _ _ _ _ _ Eog Hl) as (v & _ & Ev).
-    destruct (w_other_value (hh_ff h) v); [|discriminate]. inversion Ev. unfold w_line. eexists. reflexivity.
+    unfold w_other_group in Eog. destruct (snd og) as [vs|ms].
+    + destruct (sequence_map_in _ _ _ _ _ _ Eog Hl) as (v & _ & Ev).
+      destruct (w_other_value (hh_ff h) v); [|discriminate]. inversion Ev. unfold w_line. eexists. reflexivity.
+    + inversion Eog; subst g. apply in_map_iff in Hl. destruct Hl as (m & <- & _).
+      unfold w_omap_line, w_line. eexists. reflexivity.
   - constructor; [|constructor]. unfold w_columns, columns8. cbn [app]. rewrite join_cons2.
     unfold c_CHROM. eexists. reflexivity.
 Qed.
